@@ -36,7 +36,11 @@ TWrite  == Ev.a = "WriteAt" /\ (Accept(CanWrite(Ev.p), IF CanWrite(Ev.p) THEN Wr
 TAppend == Ev.a = "Append" /\ (Accept(CanWrite(Ev.p), IF CanWrite(Ev.p) THEN AppendT(Ev.p, Ev.len, Ev.tag) ELSE tree) \/ Refuse({Ev.p}))
                            /\ SameHandleOK(Ev.p)
 TTrunc  == Ev.a = "Trunc"  /\ (Accept(CanWrite(Ev.p), IF CanWrite(Ev.p) THEN TruncT(Ev.p) ELSE tree) \/ Refuse({Ev.p}))
-TRename == Ev.a = "Rename" /\ (Accept(CanRename(Ev.p, Ev.q), IF CanRename(Ev.p, Ev.q) THEN RenameT(Ev.p, Ev.q) ELSE tree) \/ Refuse({Ev.p, Ev.q}))
+TRename == Ev.a = "Rename" /\ Ev.p \in Files /\ (Accept(CanRename(Ev.p, Ev.q), IF CanRename(Ev.p, Ev.q) THEN RenameT(Ev.p, Ev.q) ELSE tree) \/ Refuse({Ev.p, Ev.q}))
+\* a directory is renamed with everything in it
+TRenDir == Ev.a = "Rename" /\ Ev.p \in Dirs /\ Ev.q \in Dirs
+           /\ (Accept(CanRenameDir(Ev.p, Ev.q), IF CanRenameDir(Ev.p, Ev.q) THEN RenameDirT(Ev.p, Ev.q) ELSE tree)
+               \/ Refuse({Ev.p, Ev.q} \cup Children(Ev.p) \cup Children(Ev.q)))
 TRemove == Ev.a = "Remove" /\ (Accept(CanRemove(Ev.p), RemoveT(Ev.p)) \/ Refuse({Ev.p}))
 \* Fill: k whole clusters were appended before the volume refused the next one
 TFill   == /\ Ev.a = "Fill" /\ Ev.res = "full" /\ Clean
@@ -48,7 +52,7 @@ TFill   == /\ Ev.a = "Fill" /\ Ev.res = "full" /\ Clean
 \* Churn: n temporary files outside the universe were created (until refusal) and removed again
 TChurn  == /\ Ev.a = "Churn" /\ Ev.res = "ok" /\ Clean
            /\ Api = tree /\ Api2 = tree /\ UNCHANGED vars
-Match == Ev.panic = "" /\ (TMkdir \/ TCreate \/ TWrite \/ TAppend \/ TTrunc \/ TRename \/ TRemove \/ TFill \/ TChurn)
+Match == Ev.panic = "" /\ (TMkdir \/ TCreate \/ TWrite \/ TAppend \/ TTrunc \/ TRename \/ TRenDir \/ TRemove \/ TFill \/ TChurn)
 
 InRange  == l <= Len(Trace)
 Step     == InRange /\ ~skip /\ Ev.a # "Reset" /\ Match /\ l' = l + 1 /\ UNCHANGED skip
